@@ -1,2 +1,99 @@
-(* C07 — property theorems (being built). *)
-From Klog Require Import Base.Prelude Model.Lines Model.Parser Model.Parallel.
+(* C07 — the parallel parser is indistinguishable from the serial parser.
+   Property theorems only; each is closed by [exact <lemma>] and followed by Print Assumptions.
+   Model: Model/Parallel.v (ParallelBatchParser.Parse: splitIntoChunks after fix F11, the worker, collection of the
+   results by batch index in ANY arrival order, the merge loop with carryText, renumbering) against
+   parse_text (the serial parser, Model/Parser.v). par_parse and parse_text return records, blocks (lines and
+   preceding line count) and errors (line, position, length, code, line text), so equality covers all observables.
+   Definitions used in the statements (tear, good_cut, cuts, no_tear) are in Proofs/Parallel.v. *)
+From Klog Require Import Base.Prelude Base.Utf8 Model.Lines Model.Parser Model.Parallel Proofs.Parallel.
+From Coq Require Import Permutation.
+Open Scope nat_scope.
+
+(* 1. results are stored by batch index: the order in which the workers deliver cannot matter *)
+Theorem C07_collect_any_order : forall (A : Type) (d : A) (n : nat) (rs : list A) (order : list nat),
+  length rs = n -> Permutation order (seq 0 n) ->
+  collect d n (map (fun i => (i, nth i rs d)) order) = rs.
+Proof. exact @collect_any_order. Qed.
+Print Assumptions C07_collect_any_order.
+
+(* ... for any arrival list that delivers every index with its value (repetitions and stray indices allowed) *)
+Theorem C07_collect_any_arrivals : forall (A : Type) (d : A) (n : nat) (rs : list A) (arr : list (nat * A)),
+  length rs = n -> (forall j, j < n -> In j (map fst arr)) -> (forall i x, In (i, x) arr -> x = nth i rs d) ->
+  collect d n arr = rs.
+Proof. exact @collect_any_arrivals. Qed.
+Print Assumptions C07_collect_any_arrivals.
+
+(* 2. splitIntoChunks: n chunks that concatenate to the text; every chunk boundary (text before, text after) is at
+      the start or the end of the text, or lies before a rune start (never inside a UTF-8 sequence) and not between
+      a CR and the LF that follows it *)
+Theorem C07_chunks_partition : forall (s : bytes) (n : nat), 1 <= n ->
+  List.concat (split_into_chunks s n) = s /\ length (split_into_chunks s n) = n /\
+  cuts (fun a b => a = [] \/ b = [] \/
+                   (rune_start (hd 0%N b) = true /\ ~ (last a 0%N = 13%N /\ hd 0%N b = 10%N)))
+       [] (split_into_chunks s n).
+Proof. exact chunks_partition. Qed.
+Print Assumptions C07_chunks_partition.
+
+(* 3. the main theorem: for every text (valid or not, any bytes), every worker count n >= 1 and every arrival order
+      of the n results, the parallel parser returns exactly what the serial parser returns *)
+Theorem C07_parallel_eq_serial : forall (s : bytes) (n : nat) (order : list nat),
+  1 <= n -> Permutation order (seq 0 n) -> par_parse s n order = parse_text s.
+Proof. exact parallel_eq_serial. Qed.
+Print Assumptions C07_parallel_eq_serial.
+
+Theorem C07_parallel_eq_serial_arrivals : forall (s : bytes) (n : nat) (order : list nat),
+  1 <= n -> (forall j, j < n -> In j order) -> par_parse s n order = parse_text s.
+Proof. exact parallel_eq_serial_arrivals. Qed.
+Print Assumptions C07_parallel_eq_serial_arrivals.
+
+(* consequently the result does not depend on the number of CPUs or on the schedule *)
+Theorem C07_parallel_deterministic : forall (s : bytes) (n1 n2 : nat) (o1 o2 : list nat),
+  1 <= n1 -> 1 <= n2 -> Permutation o1 (seq 0 n1) -> Permutation o2 (seq 0 n2) ->
+  par_parse s n1 o1 = par_parse s n2 o2.
+Proof. exact parallel_deterministic. Qed.
+Print Assumptions C07_parallel_deterministic.
+
+(* 4. independent of where splitIntoChunks cuts: the merge of the workers' results equals the serial result for EVERY
+      partition of the text into contiguous chunks (inside a line, a multi-byte character, a blank run, empty
+      chunks anywhere) provided no boundary separates a CR from the LF that follows it *)
+Theorem C07_any_partition : forall chunks : list bytes,
+  cuts (fun a b => ~ (last a 0%N = 13%N /\ hd 0%N b = 10%N)) [] chunks ->
+  par_blocks_of_chunks chunks = blocks_of (List.concat chunks) /\
+  par_parse_chunks chunks = parse_text (List.concat chunks).
+Proof. exact (fun chunks H => conj (par_blocks_eq chunks H) (par_parse_chunks_eq chunks H)). Qed.
+Print Assumptions C07_any_partition.
+
+(* ... and that proviso is necessary: a chunk ending in the CR of a blank line " \r\n" makes its worker see a
+   non-blank last line (defect F11 of the original splitIntoChunks, which only avoided UTF-8 sequences) *)
+Theorem C07_arbitrary_partition_refuted :
+  exists chunks, par_parse_chunks chunks <> parse_text (List.concat chunks).
+Proof. exact arbitrary_partition_refuted. Qed.
+Print Assumptions C07_arbitrary_partition_refuted.
+
+(* zero workers: the Go code panics ("Illegal number of workers") *)
+Theorem C07_zero_workers : forall s order, par_parse s 0 order = Crash CExplicitPanic.
+Proof. exact par_parse_zero_workers. Qed.
+Print Assumptions C07_zero_workers.
+
+(* ---- non-vacuity ---- *)
+(* ex_par_text (69 bytes: CRLF, a 2-byte character, blank lines, 3 records) with 5 workers of 14 bytes: the fourth cut
+   would fall between the CR and the LF of the blank line after the second record and is moved by one byte; the order
+   [3;0;4;2;1] is a permutation; the result is 3 records; the torn partition really differs in the blocks *)
+Example C07_nonvacuous :
+  map (@length N) (split_into_chunks ex_par_text 5) = [14; 14; 14; 15; 12] /\
+  Permutation [3; 0; 4; 2; 1] (seq 0 5) /\
+  (exists rs bs, par_parse ex_par_text 5 [3; 0; 4; 2; 1] = Ok (Parsed rs bs) /\ length rs = 3 /\
+                 map b_preceding bs = [0; 4; 7]) /\
+  map b_preceding (par_blocks_of_chunks torn_chunks) = [0; 2; 4] /\
+  map b_preceding (blocks_of (List.concat torn_chunks)) = [0; 2; 5].
+Proof.
+  split; [vm_compute; reflexivity|]. split.
+  { cbn [seq].
+    apply Permutation_trans with (l' := [0; 3; 4; 2; 1]); [apply perm_swap|]. apply perm_skip.
+    apply Permutation_trans with (l' := [3; 4; 1; 2]); [do 2 apply perm_skip; apply perm_swap|].
+    apply Permutation_trans with (l' := [3; 1; 4; 2]); [apply perm_skip; apply perm_swap|].
+    apply Permutation_trans with (l' := [1; 3; 4; 2]); [apply perm_swap|]. apply perm_skip.
+    apply Permutation_trans with (l' := [3; 2; 4]); [apply perm_skip; apply perm_swap|].
+    apply Permutation_trans with (l' := [2; 3; 4]); [apply perm_swap|]. apply Permutation_refl. }
+  split; [eexists _, _; vm_compute; repeat split|]. split; vm_compute; reflexivity.
+Qed.
